@@ -339,9 +339,30 @@ def _enumerate_type(args):
                 lo, hi = next(((a, b) for uu, a, b in c["ranges"] if uu == u), c["defrange"])
             # a unit-dependent controller must behave the same however the module got its unit:
             # constructor keyword, attribute assignment, the load path (set_raw), or cloning
-            for via in (("kwarg", "attr", "set_raw", "clone") if uname else ("kwarg",)):
+            for via in (("kwarg", "attr", "set_raw", "clone", "loaded-short") if uname else ("kwarg",)):
                 if via == "kwarg":
                     m = cls(**({uname: u} if uname else {}))
+                elif via == "loaded-short":
+                    # the module comes from a file whose CVAL list ends BEFORE the unit controller (older, shorter files),
+                    # the unit is chosen afterwards
+                    try:
+                        import io as _io
+                        import rv.api as _api
+                        from . import tlv as _tlv
+                        keep = c["dep"] - 1
+                        chunks, seen_cv = [], 0
+                        for cid, pl in _tlv.split(_api.Synth(cls()).read()):
+                            if cid == b"CVAL":
+                                seen_cv += 1
+                                if seen_cv > keep:
+                                    continue
+                            if cid == b"CMID":
+                                pl = pl[:8 * keep]
+                            chunks.append((cid, pl))
+                        m = _api.read_sunvox_file(_io.BytesIO(_tlv.join(chunks))).module
+                        setattr(m, uname, u)
+                    except Exception:
+                        m = cls(**{uname: u})
                 else:
                     m = cls()
                     ctl_obj.pattern_value(m, getattr(m, name))       # the range has been queried once
@@ -410,21 +431,26 @@ def _enumerate_meta(args):
             lo, hi = c["min"], c["max"]
             if c["kind"] == "dep":
                 lo, hi = next(((a, b) for uu, a, b in c["ranges"] if uu == u), c["defrange"])
-            for via in ("meta-built", "meta-loaded"):
+            for via in ("meta-built", "meta-loaded", "meta-behind-stale"):
                 try:
                     mm = api.m.MetaModule()
                     emb = api.Project()
+                    if via == "meta-behind-stale":     # the first user-defined controller still points at a position that is empty now
+                        emb.attach_module(None)
                     tm = cls(**({uname: u} if uname else {}))
-                    emb.attach_module(tm)
+                    emb.attach_module(tm, loading=True)
                     mm.project = emb
                     emb.metamodule = mm
-                    mm.mappings.values[0].module = tm.index
-                    mm.mappings.values[0].controller = i - 1
-                    mm.user_defined_controllers = 1
+                    k_ = 1 if via == "meta-behind-stale" else 0
+                    if k_:
+                        mm.mappings.values[0].module, mm.mappings.values[0].controller = 1, 0
+                    mm.mappings.values[k_].module = tm.index
+                    mm.mappings.values[k_].controller = i - 1
+                    mm.user_defined_controllers = k_ + 1
                     mm.update_user_defined_controllers()
-                    if via == "meta-loaded":
+                    if via != "meta-built":
                         mm = api.read_sunvox_file(io.BytesIO(api.Synth(mm).read())).module
-                    name = "user_defined_1"
+                    name = "user_defined_%d" % (k_ + 1)
                     ctl_obj = type(mm).controllers[name]
                 except Exception:
                     out.append({"op": "raws", "t": t, "i": i, "u": u, "lo": lo, "hi": hi, "complete": True, "via": via,
